@@ -397,6 +397,10 @@ func (run *FuncRun) execBlock(st *State, b *ssa.BasicBlock, from int) {
 			if !cont {
 				return // inlined: continuation resumes the rest of the block
 			}
+			for _, pc := range st.pendingCopies {
+				run.store(st, pc.lv, run.load(st, run.derefPtr(st, pc.cell, pc.lv.Type)))
+			}
+			st.pendingCopies = nil
 		default:
 			if !run.execInstr(st, instr) {
 				return
@@ -673,8 +677,18 @@ func (run *FuncRun) materialize(st *State, l *LVal) Term {
 			return l.Ref
 		}
 	}
-	fail("%s: interior pointer (%s) escapes; outside the modelled subset", run.key, l.Type)
-	return Term{}
+	if l.Root == rGlobal {
+		fail("%s: interior pointer (%s) escapes; outside the modelled subset", run.key, l.Type)
+	}
+	// interior pointer used as a first-class value (boxed into an interface,
+	// stored, compared): modelled as a fresh cell holding a copy, written back
+	// after the next call (assumes the pointer is used by that call only)
+	cur := run.valToTerm(st, run.load(st, l))
+	cell := st.NewRef()
+	run.store(st, run.derefPtr(st, cell, l.Type), cur)
+	st.pendingCopies = append(st.pendingCopies, pendingCopy{lv: l, cell: cell})
+	run.note("interior pointer (%s) used as a value: modelled copy-in/copy-out around the next call", l.Type)
+	return cell
 }
 
 // ---------- instructions ----------
